@@ -239,9 +239,34 @@ def save_replay(prop, name, files, info):
         if os.path.exists(src):
             shutil.copy(src, os.path.join(d, name + "." + os.path.basename(src)))
     p = os.path.join(d, name + ".json")
+    info = dict(info, trace_files=[os.path.join(d, name + "." + os.path.basename(src)) for src in files if os.path.exists(src)])
     with open(p, "w") as f:
         json.dump(info, f, indent=1, default=str)
     return p
+
+
+def replay_bundle(prop, path):
+    """bin/check <prop> --replay <bundle.json>: re-validate the recorded trace of a reported violation with TLC (the trace
+    is what the real code did then; nothing is executed again). exit 1 + VIOLATION line if TLC still rejects it."""
+    info = json.load(open(path))
+    traces = [t for t in info.get("trace_files", []) if os.path.exists(t)]
+    if not traces:
+        d, base = os.path.dirname(path), os.path.basename(path)[:-5]
+        traces = [os.path.join(d, f) for f in os.listdir(d) if f.startswith(base + ".") and f.endswith(".ndjson")]
+    if not traces:
+        raise NoVerdict("replay bundle %s has no trace file" % path)
+    with Scratch(prop + "-replay") as sc:
+        for f in all_spec_files():
+            shutil.copy(f, sc)
+        shutil.copy(traces[0], os.path.join(sc, "replay.ndjson"))
+        kf = known_findings(prop)
+        r = validate_trace(sc, info["trace_module"], "replay.ndjson", deviations=[k["deviation"] for k in kf])
+        if r["accepted"]:
+            print("replay of %s: the recorded trace is accepted by %s (with the listed known findings)" % (path, info["trace_module"]))
+            return 0
+        print("replay of %s: %s rejects the recorded trace at line %s" % (path, info["trace_module"], r["line"]))
+        print("VIOLATION property=%s replay=%s" % (prop, path), flush=True)
+        return 1
 
 
 def short(x, n=12):
